@@ -33,7 +33,7 @@ WireN(enc, s, wc) == IF Plain(enc) THEN SizeN(s)
 WireClasses(enc, s) == IF Plain(enc) THEN { IF SizeN(s) > Max THEN "gt" ELSE "le" } ELSE { "le", "gt" }
 
 IngressRequests ==
-    { [ transport |-> "http", via |-> "raw", handler |-> "probe", auth |-> "off",
+    { [ transport |-> "http", via |-> "raw", handler |-> "probe", auth |-> "off", recv |-> "off",
         enc |-> e, enabled |-> en, size |-> s, wire |-> wc,
         n |-> SizeN(s), w |-> WireN(e, s, wc), max |-> Max ]
       : e \in Encs, en \in EnabledLists, s \in SizeTags, wc \in {"le", "gt"} }
